@@ -757,3 +757,62 @@ def run_C13(ctx):
         ASSUME_COMMON + ["whether a legal but unsorted table is accepted is left open (only consistency with the reported outcome is judged)",
                          "the daemon ends the connection after a failed update; the memory state is then probed through the handle the backend was given"],
         viol)
+
+
+def ring_letter(a, cur_rid=0):
+    op = a["op"]
+    d = dict(op=op, q=a["q"])
+    qq = a["q"] if a["q"] in (0, 1) else 0
+    if op in ("set_vring_num", "set_vring_base"):
+        d["n"] = limbs(a["n"])
+    elif op == "set_mem_table":
+        d = dict(op=op, rids=[a["n"]], badfd=False)
+    elif op == "set_vring_addr":
+        d.update(rid=cur_rid, odesc=limbs(0x100 + 0x100 * qq), oavail=limbs(0x300 + 0xa00 * qq), oused=limbs(0x400 + 0xc00 * qq), used_idx=a["usedIdx"])
+    elif op == "set_features":
+        d["bits"] = a["bits"]
+    elif op == "set_protocol_features":
+        d["bits"] = sorted(set(a["bits"]) | {5})       # keep the backend-request channel itself negotiated
+    elif op == "set_vring_call":
+        d["fd"] = a["fd"]
+    elif op == "use_ring":
+        d.update(idx=0, len=16, oused=limbs(0x400 + 0xc00 * qq))
+    return d
+
+
+def run_C14(ctx):
+    hist = ctx.tlc_mc("MC_RingCfg", "MC_RingCfg_" + ctx.tier)
+    rnd = random.Random(ctx.seed)
+    if ctx.tier == "thorough" and len(hist) > 120000:
+        hist = rnd.sample(hist, 120000)
+    cases = []
+    for i, c in enumerate(hist):
+        pool, G = mem_pool(rnd)
+        pre = [dict(op="negotiate", feats=[], pf=[3, 5, 13, 15]), dict(op="set_mem_table", rids=[0], badfd=False),
+               dict(op="set_vring_kick", q=0, fd="new"), dict(op="set_vring_kick", q=1, fd="new")]
+        # a ring used by the backend needs a valid layout first
+        if any(a["op"] == "use_ring" for a in c["steps"]):
+            pre += [ring_letter(dict(op="set_vring_addr", q=q, usedIdx=0)) for q in (0, 1)]
+        body, cur_rid = [], 0
+        for a in c["steps"]:
+            body.append(ring_letter(a, cur_rid))
+            if a["op"] == "set_mem_table":
+                cur_rid = a["n"]
+        cases.append(dict(nq=2, masks=[3], maxq=256, pool=pool, vring="rwlock" if i % 2 else "mutex", adapter=("arc", "mutex", "rwlock")[i % 3],
+                          steps=pre + body))
+    cases = replay_or(ctx, "daemon", cases)
+    tr = ctx.harness("daemon", cases, shards=12)
+    viol = ctx.tlc_tv("TV_RingCfg", tr, "daemon")
+    ctx.count_distinct(tr, lambda e: (e.get("op"), json.dumps(e.get("letter"), sort_keys=True), e.get("status")),
+                       lambda e: e.get("ev") == "step" and e.get("op") not in ("negotiate",))
+    ctx.sample(tr, 2, skip=6)
+    ctx.exhaustive = True
+    return ctx.finish("model_checking",
+        "RingConfig.tla: all histories of depth 2 (3 thorough) over the letters {SET_VRING_NUM (index 0,1,2,255 x size 0,1,2,3,128,256,257,"
+        "65535), SET_VRING_BASE (0,1,32767,65535), GET_VRING_BASE, SET_MEM_TABLE (two files at the same guest range), SET_VRING_ADDR (used "
+        "index in guest memory 0,1,65535), SET_FEATURES (subset / not offered / EVENT_IDX / PROTOCOL_FEATURES), SET_PROTOCOL_FEATURES "
+        "(subsets of REPLY_ACK, SHARED_OBJECT, SHMEM) + SET_BACKEND_REQ_FD, SET_VRING_CALL new/none, add_used+signal by the backend} after "
+        "a fixed start-up, model-checked and replayed on a real daemon; after every letter the queue accessors of every ring are sampled "
+        "inside the backend's event handler (barrier listener) and compared by TLC with the model, as are backend callbacks, the proxy "
+        "the backend was handed, used-ring bytes in the file backing the latest table and call eventfd counters",
+        ASSUME_COMMON + ["ring addresses are checked through the single user-address mapping of pool region 0/4"], viol)
